@@ -341,9 +341,9 @@ fn check(ctx: &mut Ctx, recipe: &Recipe) {
     ctx.out.add("parses", 5);
     ctx.out.distinct.push(vcore::util::fnv64(desc.as_bytes()));
     let class = class_of(recipe);
-    let mut fail = |ctx: &mut Ctx, what: &str, detail: String| {
+    let fail = |ctx: &mut Ctx, what: &str, detail: String| {
         ctx.out.violation(
-            format!("C15:limits:{what}:{class}"),
+            vkip::c15_signature("limits", what, &class),
             format!("{what} for {desc} (input of {} bytes): {detail}", input.len()),
             json!({"case": desc}),
         );
